@@ -86,6 +86,9 @@ func (m *Machine) fmtArgTyped(verb string, v Value, t types.Type) []*Term {
 		}
 		return lit(fmt.Sprintf(verb, uint64(n)&mask(x.sort.W)))
 	case FloatV:
+		if x.T != nil {
+			return lit("<float>")
+		}
 		return lit(fmt.Sprintf(verb, x.F))
 	case *Ptr:
 		if x.IsNil() {
